@@ -39,6 +39,75 @@ class NPProxy:
         return np.unravel_index(idx, shape)
 
 
+class MaxvolRec:
+    """records, from outside, every `_maxvol` call of the run: shape, the LU pivot vector, the (tolerance test, arg-max position) of every loop
+    pass, and the returned positions — replayed through TTModel/Maxvol.lean (theorems TT.C14b)"""
+    def __init__(self):
+        self.calls, self.cur = [], None
+
+    def __enter__(self):
+        self.o_lu, self.o_mm, self.o_mv = IP._LU, IP._max_matrix, IP._maxvol
+        rec = self
+
+        def lu(M):
+            L, U, P = rec.o_lu(M)
+            if rec.cur is not None:
+                rec.cur["P"] = [int(v) for v in P.reshape(-1)]
+            return L, U, P
+
+        def mm(M):
+            vals, idx = rec.o_mm(M)
+            if rec.cur is not None:
+                rec.cur["ev"].append((1 if bool(vals <= 1 + 5e-2) else 0, int(idx[0][0]), int(idx[0][1])))
+            return vals, idx
+
+        def mv(M):
+            outer = rec.cur
+            rec.cur = {"rows": int(M.shape[0]), "cols": int(M.shape[1]), "P": [], "ev": []}
+            try:
+                r = rec.o_mv(M)
+                rec.cur["res"] = [int(v) for v in r]
+                rec.calls.append(rec.cur)
+                return r
+            finally:
+                rec.cur = outer
+        IP._LU, IP._max_matrix, IP._maxvol = lu, mm, mv
+        return self
+
+    def __exit__(self, *a):
+        IP._LU, IP._max_matrix, IP._maxvol = self.o_lu, self.o_mm, self.o_mv
+
+
+def replay_maxvol(res, rec, limit):
+    from common import run_driver
+    from util import J
+    calls = rec.calls
+    # keep every structurally different call first (swaps made, loop exhausted, wide matrices), then the rest up to the limit
+    calls = sorted(calls, key=lambda c: (-(sum(1 for e in c["ev"] if not e[0])), c["cols"] >= c["rows"]))[:limit]
+    lines = [J("maxvol", c["rows"], c["cols"], len(c["P"]), c["P"], len(c["ev"]), [list(e) for e in c["ev"]]) for c in calls]
+    outs = run_driver(lines) if lines else []
+    swaps = 0
+    for c, line, mo in zip(calls, lines, outs):
+        res.model_cases += 1
+        io = "il %d %s" % (len(c["res"]), " ".join(str(v) for v in c["res"]))
+        swaps += sum(1 for e in c["ev"] if not e[0])
+        bad = None
+        if io.split() != mo.split():
+            bad = "returned positions differ from the model"
+        elif any(not (0 <= v < c["rows"]) for v in c["res"]):
+            bad = "a returned position is not a row number"
+        elif any(not (0 <= v < c["rows"]) for v in c["P"]) or any(not (0 <= e[1] < c["rows"] and 0 <= e[2] < c["cols"]) for e in c["ev"]):
+            bad = "primitive contract (LU pivot vector / arg-max position inside the matrix) violated: hypothesis of maxvol_inRange"
+        if bad is None:
+            res.core_equal += 1
+        else:
+            res.violation({"property": "C14", "kind": "correspondence", "class": "maxvol/%dx%d" % (c["rows"], c["cols"]), "case": line[:1500], "impl_outcome": io,
+                           "model_outcome": mo[:300], "note": bad}, no_input=True)
+    res.extra["maxvol_calls_replayed"] = len(lines)
+    res.extra["maxvol_calls_seen"] = len(rec.calls)
+    res.extra["maxvol_row_swaps_replayed"] = swaps
+
+
 def target(rng, kind, N):
     d = len(N)
     if kind == "lowrank":
@@ -290,7 +359,9 @@ def run(res, rng, tier, known):
         replays.append((events, N, label))
     for ci in range(n_fi):
         cases.append(fi_case(rng, tier, ci, stats))
-    run_cases(res, cases, known)
+    with MaxvolRec() as mrec:
+        run_cases(res, cases, known)
+    replay_maxvol(res, mrec, 400 if tier == "quick" else 4000)
     nrep = 0
     for events, N, label in replays:
         if not events or res.violations:
@@ -305,4 +376,4 @@ def run(res, rng, tier, known):
         res.extra["contract_monitor_runs"] = len(stats)
         res.extra["contract_monitor_max_error_over_eps"] = max(s[2] for s in stats)
     return {"level": LEVEL, "rule": RULE, "assumptions": ASSUMPTIONS,
-            "not_by_theorem": ["approximation quality (kind K: monitored only)", "that _maxvol returns valid row numbers (assumed for the LU pivot vector, checked per call through the range oracle)"]}
+            "not_by_theorem": ["approximation quality (kind K: monitored only)", "the two primitive contracts behind TT.C14b.maxvol_inRange (torch's LU pivot vector holds row numbers; topk + unravel_index return a position inside the matrix): checked on every recorded call"]}
